@@ -26,7 +26,8 @@ ASSUMPTIONS = ["a zero inside a schedule that starts negative is not generated (
                "multi-readout runs whose plan does not write the image every step are refused by pyxel and counted as refused",
                "sweeping observation.readout.times is not driven (no listed property covers it; the sequential path ignores it)"]
 REQUIRED_COUNTERS = ["valid_runs", "steps_checked", "clock_fields_checked", "lifecycle_checks",
-                     "invalid_cases", "invalid_rejected", "prior_contents_runs", "nondestructive_carry_checks"]
+                     "invalid_cases", "invalid_rejected", "prior_contents_runs", "nondestructive_carry_checks",
+                     "concurrent_runs", "concurrent_cases_interleaved", "prior_same_schedule_other_mode"]
 TIMEOUT = {"quick": 600, "thorough": 3000}
 LEVEL_TEXT = ("Exploration by runtime monitoring: generated valid schedules in every accepted form are executed by the "
               "real exposure loop with probes first and last in each step; every observed clock field and bucket "
@@ -168,68 +169,9 @@ def preload(rng, detector, how):
         detector.scene.add_source(probes.make_source(5))
 
 
-def valid_case(rec, i, rng):
-    import pyxel
-    from pyxel.exposure import Exposure, Readout
-
-    ts, start = gen_times(rng)
-    rkw, otimes, form = gen_form(rng, ts, start, rec.tmp, i)
-    start = rkw["start_time"]
-    nd = rng.random() < 0.5
-    rkw["non_destructive"] = nd
+def verify_events(rec, evs, otimes, start, nd, prior, case, i):
+    """Clock and bucket-lifecycle oracle applied to the probe events of ONE run."""
     n_steps = len(otimes)
-    wplan = gen_plan(rng, n_steps)
-    prior = rng.choice(["none", "none", "previous_run", "direct"])
-    dkind = rng.choice(["ccd", "cmos", "mkid", "apd"])
-    dspec = build.default_detector_spec(dkind, rng.randint(1, 4), rng.randint(1, 4))
-    route = rng.choice(["python", "python", "yaml"]) if "times_from_file" not in rkw or True else "python"
-    case = {"readout": {k: (v if not isinstance(v, np.ndarray) else v.tolist()) for k, v in rkw.items()},
-            "oracle_times": otimes, "form": form, "plan": wplan, "prior": prior, "detector": dkind, "route": route}
-    sig = (form, n_steps, nd, [sorted(v) for v in wplan.values()], prior, route, otimes[:3])
-    mech_form = form.split(":")[0]
-
-    pspec = pipeline_spec(wplan, i)
-    try:
-        if route == "yaml":
-            doc = {"exposure": {"readout": dict(rkw)}, "pipeline": build.pipeline_yaml_dict(pspec)}
-            doc.update(build.detector_yaml_dict(dspec))
-            cfg = pyxel.loads(build.dump_yaml(doc))
-            detector = getattr(cfg, build.DETECTOR_KEYS[dkind])
-            mode, pipe = cfg.exposure, cfg.pipeline
-        else:
-            detector = build.make_detector(dspec)
-            mode, pipe = Exposure(readout=Readout(**rkw)), build.make_pipeline(pspec)
-    except Exception as exc:  # noqa: BLE001
-        if form.startswith("file"):
-            rec.count("refused_file_form")
-            return
-        rec.violation(f"C02:valid-refused:{mech_form}:{route}", f"valid schedule refused at construction: {type(exc).__name__}: {exc}", case, i)
-        rec.case(sig, True)
-        return
-    if prior != "none":
-        try:
-            preload(rng, detector, prior)
-            rec.count("prior_contents_runs")
-        except Exception as exc:  # noqa: BLE001
-            rec.count("preload_failed")
-            rec.observe("preload_errors", f"{type(exc).__name__}: {str(exc)[:80]}")
-            prior = "none"
-    probes.reset()
-    image_every_step = all("image" in wplan[str(s)] for s in range(1, n_steps))
-    try:
-        pyxel.run_mode(mode=mode, detector=detector, pipeline=pipe, with_inherited_coords=True)
-    except Exception as exc:  # noqa: BLE001
-        if not image_every_step:
-            rec.count("refused_image_not_written_every_step")
-            rec.case(sig, False)
-            return
-        rec.violation(f"C02:valid-run-failed:{mech_form}", f"{type(exc).__name__}: {exc}", case, i)
-        rec.case(sig, True)
-        return
-    rec.count("valid_runs")
-    rec.observe("forms", form)
-    rec.observe("n_steps", n_steps)
-    evs = probes.events()
     firsts = [e for e in evs if e["model"] == "first"]
     lasts = [e for e in evs if e["model"] == "last"]
     writes = [e for e in evs if e["model"] == "w"]
@@ -237,8 +179,7 @@ def valid_case(rec, i, rng):
             or len(writes) != n_steps or [e["model"] for e in evs] != ["first", "w", "last"] * n_steps:
         rec.violation("C02:steps:count-or-order",
                       f"expected {n_steps} steps in order, saw {[(e['model'], e['step']) for e in evs][:30]}", case, i)
-        rec.case(sig, True)
-        return
+        return False
     prev_t = start
     prev_pixel = None
     for step in range(n_steps):
@@ -282,6 +223,88 @@ def valid_case(rec, i, rng):
         prev_pixel = lasts[step]["buckets"]["pixel"]
         prev_t = t
         rec.count("steps_checked")
+    return True
+
+
+def valid_case(rec, i, rng):
+    import pyxel
+    from pyxel.exposure import Exposure, Readout
+
+    ts, start = gen_times(rng)
+    rkw, otimes, form = gen_form(rng, ts, start, rec.tmp, i)
+    start = rkw["start_time"]
+    nd = rng.random() < 0.5
+    rkw["non_destructive"] = nd
+    n_steps = len(otimes)
+    wplan = gen_plan(rng, n_steps)
+    prior = rng.choice(["none", "none", "previous_run", "direct", "same_schedule_other_mode"])
+    dkind = rng.choice(["ccd", "cmos", "mkid", "apd"])
+    dspec = build.default_detector_spec(dkind, rng.randint(1, 4), rng.randint(1, 4))
+    route = rng.choice(["python", "python", "yaml"]) if "times_from_file" not in rkw or True else "python"
+    case = {"readout": {k: (v if not isinstance(v, np.ndarray) else v.tolist()) for k, v in rkw.items()},
+            "oracle_times": otimes, "form": form, "plan": wplan, "prior": prior, "detector": dkind, "route": route}
+    sig = (form, n_steps, nd, [sorted(v) for v in wplan.values()], prior, route, otimes[:3])
+    mech_form = form.split(":")[0]
+
+    pspec = pipeline_spec(wplan, i)
+    try:
+        if route == "yaml":
+            doc = {"exposure": {"readout": dict(rkw)}, "pipeline": build.pipeline_yaml_dict(pspec)}
+            doc.update(build.detector_yaml_dict(dspec))
+            cfg = pyxel.loads(build.dump_yaml(doc))
+            detector = getattr(cfg, build.DETECTOR_KEYS[dkind])
+            mode, pipe = cfg.exposure, cfg.pipeline
+        else:
+            detector = build.make_detector(dspec)
+            mode, pipe = Exposure(readout=Readout(**rkw)), build.make_pipeline(pspec)
+    except Exception as exc:  # noqa: BLE001
+        if form.startswith("file"):
+            rec.count("refused_file_form")
+            return
+        rec.violation(f"C02:valid-refused:{mech_form}:{route}", f"valid schedule refused at construction: {type(exc).__name__}: {exc}", case, i)
+        rec.case(sig, True)
+        return
+    if prior == "same_schedule_other_mode":
+        # history: an earlier run on the SAME detector with the very same times and start time, in the
+        # other readout mode
+        try:
+            other = dict(rkw, non_destructive=not nd)
+            pl = {str(s_): ["photon", "charge", "pixel+", "signal", "image"] for s_ in range(n_steps)}
+            pyxel.run_mode(mode=Exposure(readout=Readout(**other)), detector=detector,
+                           pipeline=build.make_pipeline(pipeline_spec(pl, 91)), with_inherited_coords=True)
+            rec.count("prior_contents_runs")
+            rec.count("prior_same_schedule_other_mode")
+        except Exception as exc:  # noqa: BLE001
+            rec.count("preload_failed")
+            rec.observe("preload_errors", f"{type(exc).__name__}: {str(exc)[:80]}")
+            prior = "none"
+    elif prior != "none":
+        try:
+            preload(rng, detector, prior)
+            rec.count("prior_contents_runs")
+        except Exception as exc:  # noqa: BLE001
+            rec.count("preload_failed")
+            rec.observe("preload_errors", f"{type(exc).__name__}: {str(exc)[:80]}")
+            prior = "none"
+    probes.reset()
+    image_every_step = all("image" in wplan[str(s)] for s in range(1, n_steps))
+    try:
+        pyxel.run_mode(mode=mode, detector=detector, pipeline=pipe, with_inherited_coords=True)
+    except Exception as exc:  # noqa: BLE001
+        if not image_every_step:
+            rec.count("refused_image_not_written_every_step")
+            rec.case(sig, False)
+            return
+        rec.violation(f"C02:valid-run-failed:{mech_form}", f"{type(exc).__name__}: {exc}", case, i)
+        rec.case(sig, True)
+        return
+    rec.count("valid_runs")
+    rec.observe("forms", form)
+    rec.observe("n_steps", n_steps)
+    evs = probes.events()
+    if not verify_events(rec, evs, otimes, start, nd, prior, case, i):
+        rec.case(sig, True)
+        return
     rec.case(sig, n_steps >= 2 or prior != "none", sample=case)
 
 
@@ -394,7 +417,68 @@ def invalid_case(rec, i, rng):
     rec.case(("invalid", cls, route, repr(ts), start), True)
 
 
+def concurrent_case(rec, i, rng):
+    """Several detectors run the SAME schedule at the same time in different threads (as the thread
+    scheduler of a parallel observation does): every run must see its own clock and its own buckets."""
+    import threading
+
+    import pyxel
+    from pyxel.exposure import Exposure, Readout
+
+    ts, start = gen_times(rng)
+    if len(ts) < 2:
+        ts = [ts[0], ts[0] + 1.0, ts[0] + 2.5]
+    nd = rng.random() < 0.5
+    n_threads = rng.randint(2, 4)
+    n_steps = len(ts)
+    case = {"concurrent": n_threads, "times": ts, "start": start, "non_destructive": nd}
+    jobs = []
+    for t in range(n_threads):
+        wplan = {str(s_): ["image", "pixel+"] + (["photon"] if rng.random() < 0.5 else []) for s_ in range(n_steps)}
+        pspec = pipeline_spec(wplan, 1000 * i + t)
+        # data-dependent pauses inside the first probe move the threads against each other
+        pspec["scene_generation"][0]["arguments"]["sleep"] = rng.choice([0.0, 0.002, 0.004])
+        pspec["data_processing"][0]["arguments"]["sleep"] = rng.choice([0.0, 0.003])
+        jobs.append((build.make_detector(build.default_detector_spec(rng.choice(["ccd", "cmos"]), 2, 3)),
+                     build.make_pipeline(pspec)))
+    probes.reset()
+    barrier = threading.Barrier(n_threads)
+    errors = []
+
+    def work(det, pipe):
+        try:
+            barrier.wait(timeout=30)
+            pyxel.run_mode(mode=Exposure(readout=Readout(times=list(ts), start_time=start, non_destructive=nd)),
+                           detector=det, pipeline=pipe, with_inherited_coords=True)
+        except Exception as exc:  # noqa: BLE001
+            errors.append(f"{type(exc).__name__}: {exc}")
+
+    threads = [threading.Thread(target=work, args=job) for job in jobs]
+    for th in threads:
+        th.start()
+    for th in threads:
+        th.join(timeout=120)
+    if errors:
+        rec.violation("C02:concurrent:run-failed", f"{errors[:2]}", case, i)
+        return
+    evs = probes.events()
+    rec.count("concurrent_runs", n_threads)
+    interleaved = len({e["tid"] for e in evs}) > 1 and any(a["tid"] != b["tid"] for a, b in zip(evs, evs[1:]))
+    rec.count("concurrent_cases_interleaved", int(interleaved))
+    for det, _pipe in jobs:
+        mine = [e for e in evs if e["det"] == id(det)]
+        rec.count("valid_runs")
+        if not verify_events(rec, mine, ts, start, nd, "none", dict(case, mechanism_hint="concurrent twin runs"), i):
+            rec.observe("concurrent_violation", 1)
+    rec.case(("concurrent", n_threads, ts, start, nd), True, sample=case)
+
+
 def run_shard(spec, rec):
+    if spec["kind"] == "valid":
+        for j in range(max(2, spec["n"] // 10)):
+            idx = 50_000 + j
+            if rec.wanted(idx):
+                concurrent_case(rec, idx, rec.rng(idx))
     for i in range(spec["n"]):
         if not rec.wanted(i):
             continue
